@@ -58,8 +58,9 @@ def match(source: str, pos: int) -> MatchResult:
             pending_property[0] = alloc_range(pool, start, end, delimiter)
         elif token_type == TokenType.PropertyValue:
             pending = pending_property[0]
-            if pending and pending[0] < pos < end:
-                result[0] = MatchResult('property', pending[0], delimiter + 1 if delimiter != -1 else end, start, end)
+            prop_end = property_end(source, end, delimiter)
+            if pending and pending[0] < pos < prop_end:
+                result[0] = MatchResult('property', pending[0], prop_end, start, end)
                 return False
             release_pending()
 
@@ -103,10 +104,11 @@ def balanced_outward(source: str, pos: int) -> list:
             prop[0] = alloc_range(pool, start, end, delimiter)
         elif token_type == TokenType.PropertyValue:
             p = prop[0]
-            if p and p[0] < pos < max(delimiter, end):
+            prop_end = property_end(source, end, delimiter)
+            if p and p[0] < pos < prop_end:
                 # Push full token and value range
                 push(result, (start, end))
-                push(result, (p[0], delimiter + 1 if delimiter != -1 else end))
+                push(result, (p[0], prop_end))
 
         if token_type != TokenType.PropertyName and prop[0]:
             release_range(pool, prop[0])
@@ -199,9 +201,10 @@ def balanced_inward(source: str, pos: int) -> list:
         elif token_type == TokenType.PropertyValue:
             if pending_property[0]:
                 p = pending_property[0]
-                if p.start <= pos <= end:
+                prop_end = property_end(source, end, delimiter)
+                if p.start <= pos <= prop_end:
                     # Direct hit into property, no need to look further
-                    push(result, (p.start, delimiter + 1 if delimiter != -1 else end))
+                    push(result, (p.start, prop_end))
                     push(result, (start, end))
                     release_pending()
                     return False
@@ -234,6 +237,15 @@ def inner_range(source: str, start: int, end: int):
         end -= 1
 
     return (start, end) if start < end else None
+
+def property_end(source: str, end: int, delimiter: int):
+    """
+    Returns end location of a property whose value ends at `end`: the location
+    right after its terminating semicolon, if there is one
+    """
+    if delimiter != -1 and source[delimiter] == ';':
+        return delimiter + 1
+    return end
 
 def alloc_range(pool: list, start: int, end: int, delimiter: int):
     if pool:
